@@ -3,7 +3,10 @@
 Workload: generated tar archives (members with parent-directory segments, absolute names,
 symlink members followed by members written through them, hard links to outside files that are
 then overwritten, two archives of which the first plants the symlink, fifo members, deep / odd
-names, benign controls; link members at depth under both readings of their link name; symlink
+names, benign controls; DIRECTORY references :link/:copy/:copyout to component and package
+directories in every order, with equal / different last path elements and with the destination name
+absent / a file / a directory / a symlink to inside / a symlink to outside: family dirrefs_*;
+link members at depth under both readings of their link name; symlink
 members that resolve INSIDE the working directory followed by a member that leaves it only through
 that link - 'up -> .', 'up/../x' - as file, directory, symlink, hard link, hard-link name or second
 symlink: family linkhop_*), link+copy reference sets (directories containing outward symlinks, a
@@ -257,6 +260,81 @@ class StagingHarness:
         return verdicts
 
 
+class DirRefHarness(StagingHarness):
+    """Directory references (:link / :copy / :copyout) to component working directories and package
+    directories, staged by the real Job.stageIn of one consumer out of a fixed set (G.dirref_consumers)."""
+
+    def __init__(self):
+        if vlib.REPO not in sys.path:
+            sys.path.insert(1, vlib.REPO)
+        from tests import utils
+        self.top = vlib.mkscratch("c18r")
+        deep = os.path.join(self.top, "L1", "L2")
+        os.makedirs(deep)
+        self.exp = utils.experiment_from_flowir(
+            G.dirref_flowir(), deep, checkExecutables=False,
+            extra_files={"data/ra/results/energies.csv": "x", "data/rb/results/energies.csv": "x",
+                         "data/rb/tables/energies.csv": "x"})
+        self.inst = self.exp.instanceDirectory.location
+        self.shadow = os.path.dirname(os.path.realpath(os.path.join(self.inst, "output")))
+        self.jobs = {c["name"]: self.exp.findJob(0, c["name"]) for c in G.dirref_consumers()}
+        self.outside = os.path.join(self.inst, "input")
+        # a directory of another producer that no reference names (target of pre-existing outward links)
+        self.private = os.path.join(self.inst, "stages", "stage0", "pb", "private")
+        for d in (self.outside, self.private):
+            os.makedirs(d, exist_ok=True)
+            for n in ("victim.txt", "energies.csv"):
+                with open(os.path.join(d, n), "w") as f:
+                    f.write("VICTIM CONTENT")
+                os.utime(os.path.join(d, n), (1600000000, 1600000000))
+        self.world = World(self.top)
+
+    def gen(self, idx, family=None):
+        return G.gen_dirref_case(idx)
+
+    def prepare(self, case):
+        job = self.jobs[case["component"]]
+        wd = job.workingDirectory.path
+        _empty_dir(wd)
+        job.isStaged = False
+        for key, (_ref, _cat, _base, rel) in G.DIRREF_SOURCES.items():
+            if key == "A_whole":
+                continue
+            d = os.path.join(self.inst, rel)
+            _rm(d)
+            os.makedirs(d)
+            for m in case["contents"].get(key, [{"name": "energies.csv", "data": "default of %s" % key}]):
+                p = os.path.join(d, m["name"])
+                k = m.get("kind", "file")
+                if k == "dir":
+                    os.makedirs(p, exist_ok=True)
+                elif k == "sym":
+                    if not os.path.lexists(p):
+                        os.symlink(m["target"].replace("<OUTSIDE>", self.outside), p)
+                else:
+                    os.makedirs(os.path.dirname(p), exist_ok=True)
+                    with open(p, "w") as f:
+                        f.write(m.get("data", ""))
+        kind, name = case["dest_kind"], case["pre_name"]
+        if kind != "absent":
+            p = os.path.join(wd, name)
+            if kind == "file":
+                with open(p, "w") as f:
+                    f.write("left by an earlier staging")
+            elif kind == "directory":
+                os.makedirs(os.path.join(p, "old"))
+                with open(os.path.join(p, "energies.csv"), "w") as f:
+                    f.write("left by an earlier staging")
+            else:
+                if kind == "symlink_inside":
+                    real = os.path.join(wd, ".kept_real")
+                    os.makedirs(real)
+                else:
+                    real = self.outside if case["outside_target"] == "input" else self.private
+                os.symlink(real if case["link_spelling"] == "abs" else os.path.relpath(real, wd), p)
+        return job, wd
+
+
 # ==================================================================================== deployment
 
 class DeployHarness:
@@ -358,7 +436,9 @@ def classify(case, changes, out_events, raised):
             return K_TAR_SYMLINK
         if cls == "hard_outside_then_overwrite" and has_hard and not has_sym:
             return K_TAR_HARDLINK
-    if case["kind"] == "copylink" and cls == "same_basename_link_then_copy":
+    # narrow on purpose: only the FILE-reference shape (component 'same': data/p/same.txt:link, data/q/same.txt:copy,
+    # shutil.copy following the staged link). Directory references (kind 'dirrefs') never match.
+    if case["kind"] == "copylink" and cls == "same_basename_link_then_copy" and case.get("component") == "same":
         if any(c["path"].endswith(os.path.join("data", "p", "same.txt")) for c in changes) or \
                 any(e["effect"].endswith(os.path.join("data", "p", "same.txt")) for e in out_events):
             return K_COPY_LINK
@@ -394,6 +474,15 @@ def _hop_text(case):
                 case["levels_above"], ", link planted by the first of two archives" if case["second"] is not None else ""))
 
 
+def _dirref_text(case):
+    return "directory references %s of component %s; <working dir>/%s before staging: %s%s" % (
+        [x["reference"] for x in case["refs"]], case["component"], case["pre_name"] or "*", case["dest_kind"],
+        {"copy_through_staged_link_of_same_name": "; a :link is staged before a :copy/:copyout with the same last path "
+                                                   "element, the copy goes through the staged link",
+         "copy_through_preexisting_outward_link": "; the copy goes through the symlink that already occupies the name",
+         "": ""}[case["offending_reason"]])
+
+
 def judge(case, raised, changes, out_events, rec, target, err_class, err_name, w, manifest=None):
     w.count("cases_judged")
     w.count("audit_events_seen", len(rec.events))
@@ -417,6 +506,8 @@ def judge(case, raised, changes, out_events, rec, target, err_class, err_name, w
             "" if raised is not None else " and no error was raised")
         if hop:
             what += " [%s]" % _hop_text(case)
+        if case.get("family") == "dirrefs":
+            what += " [%s]" % _dirref_text(case)
         res.append((what, wit, classify(case, real_changes, out_events, raised)))
     else:
         w.count("confined")
@@ -429,6 +520,17 @@ def judge(case, raised, changes, out_events, rec, target, err_class, err_name, w
                                             "rejected_with_other_error"))
         else:
             w.count("linkhop_inside_%s" % ("accepted" if raised is None else "rejected"))
+    if case.get("family") == "dirrefs":
+        dk = case["dest_kind"]
+        w.count("dirrefs_dest|%s" % dk)
+        w.count("dirrefs_dest|%s|%s" % (dk, "accepted" if raised is None else "rejected"))
+        if escaped:
+            w.count("dirrefs_dest|%s|escaped" % dk)
+        for x in case["refs"]:
+            w.count("dirrefs_ref|%s|%s" % (x["category"], x["method"]))
+        if case["offending"] is True:
+            w.count("dirrefs_offending|%s" % case["offending_reason"])
+            w.count("dirrefs_offending|%s|%s" % (case["offending_reason"], "accepted" if raised is None else "rejected"))
     if case["offending"] is True:
         w.count("offending_cases")
         if raised is None:
@@ -455,15 +557,20 @@ def judge(case, raised, changes, out_events, rec, target, err_class, err_name, w
 # ======================================================================================== driver
 
 def run_job(job, w):
-    h = StagingHarness() if job["kind"] == "staging" else DeployHarness()
+    h = DirRefHarness() if job.get("family") == "dirrefs" else \
+        StagingHarness() if job["kind"] == "staging" else DeployHarness()
     try:
         for idx in range(job["lo"], job["hi"]):
             case = h.gen(idx, job.get("family"))
             verdicts = h.run(case, w)
             w.evaluated()
             w.count("%s_cases" % job.get("family", job["kind"]))
-            w.count("class|%s|%s" % (case["kind"], case["cls"] if case.get("family") != "linkhop" else
-                                     "linkhop_%s_%s" % (case["mode"], "outside" if case["really_outside"] else "inside")))
+            fam = case.get("family")
+            w.count("class|%s|%s" % (case["kind"],
+                                     "linkhop_%s_%s" % (case["mode"], "outside" if case["really_outside"] else "inside")
+                                     if fam == "linkhop" else
+                                     "dirrefs_%s_%s" % (case["cls"].split("_")[2], case["dest_kind"]) if fam == "dirrefs" else
+                                     case["cls"]))
             w.distinct("%s|%s|%s|%s" % (case["kind"], case["cls"], case.get("compress", case.get("via", "")),
                                         _shape(case)))
             if idx % 131 == 0:
@@ -498,7 +605,7 @@ def replay(c, rp):
     wit = rp["witness"]
     case = wit["case"]
     w = vlib.Worker()
-    h = DeployHarness() if case["kind"] == "manifest" else StagingHarness()
+    h = DeployHarness() if case["kind"] == "manifest" else DirRefHarness() if case["kind"] == "dirrefs" else StagingHarness()
     try:
         verdicts = h.run(case, w)
     finally:
@@ -547,19 +654,32 @@ def main():
     step = 161 if thorough else 23
     for lo in range(0, n_hop, step):
         jobs.append({"kind": "staging", "family": "linkhop", "lo": lo, "hi": min(n_hop, lo + step)})
+    # directory references: every consumer (reference set) under every pre-existing destination kind
+    n_dir = len(G.dirref_consumers()) * len(G.DIRREF_DEST_KINDS) * (8 if thorough else 1)
+    step = 185 if thorough else 37
+    for lo in range(0, n_dir, step):
+        jobs.append({"kind": "staging", "family": "dirrefs", "lo": lo, "hi": min(n_dir, lo + step)})
     step = 250 if thorough else 39
     for lo in range(0, n_deploy, step):
         jobs.append({"kind": "manifest", "lo": lo, "hi": min(n_deploy, lo + step)})
     vlib.fanout("checks.C18", jobs, c, timeout=900 if thorough else 240)
     c.floor("staging_cases", n_stage)
     c.floor("linkhop_cases", n_hop)
+    c.floor("dirrefs_cases", n_dir)
+    for dk in G.DIRREF_DEST_KINDS:
+        c.floor("dirrefs_dest|%s" % dk, n_dir // 6)
+    c.floor("dirrefs_offending|copy_through_staged_link_of_same_name", n_dir // 40)
+    c.floor("dirrefs_offending|copy_through_preexisting_outward_link", n_dir // 12)
+    for cat in ("component", "direct"):
+        for m in G.DIRREF_METHODS:
+            c.floor("dirrefs_ref|%s|%s" % (cat, m), n_dir // 10)
     c.floor("linkhop_really_outside", n_hop // 3)
     c.floor("linkhop_really_inside", n_hop // 4)
     c.floor("manifest_cases", n_deploy)
     c.floor("offending_cases", (n_stage + n_deploy) * 2 // 5)
     c.floor("benign_accepted", (n_stage + n_deploy) // 8)
     c.floor("audit_events_seen", (n_stage + n_deploy + n_hop) * 2)
-    c.floor("cases_judged", n_stage + n_deploy + n_hop)
+    c.floor("cases_judged", n_stage + n_deploy + n_hop + n_dir)
     sys.exit(c.finish())
 
 
